@@ -44,6 +44,7 @@ def run(ctx):
     check_size_shortcuts(ctx, prog)
     check_dup(ctx, prog)
     check_table_owner(ctx, prog)
+    check_string_order(ctx, prog)
     check_share(ctx, prog)
     check_enum_range(ctx, prog)
     # value-returning const members of the map / set classes build a new container (never hand out `*this` or an argument)
@@ -880,6 +881,54 @@ def check_table_owner(ctx, prog):
     if n and not any(o.rule == 'C02.tablesize' and o.status == 'violation' for o in ctx.obligations):
         ctx.ok('C02.tablesize', 'asl::HashMap', 'bucket array sized only where entries are placed', '', '%d member instantiation(s) size the table: constructors, rehash(), dup(), operator= and their private helpers only' % n)
     ctx.floor('C02.tablesize', n, 2)
+
+
+def check_string_order(ctx, prog):
+    """C02.order: the ordering the sorted maps use for String keys is the byte-string order.  `compare(const String&, const String&)`
+    (the overload Map::indexOf resolves to for Dic) is interpreted (scansim) on every ordered pair over a small set of keys that
+    includes proper prefixes and the empty key: its sign must be that of the byte-wise comparison, in particular 0 only for
+    equal keys - a comparison that stops at the shorter length merges "abc" with "abcd"."""
+    import scansim
+    fs = [f for f in prog.functions if f.get('pq') == 'asl::compare' and f.get('body') and len(f.get('params') or []) == 2 and
+          all(T(f, T(f, p_['t']).get('to') or p_['t']).get('rec') == 'asl::String' for p_ in f['params'])]
+    if not fs:
+        ctx.info['string_order'] = 'no compare(const String&, const String&) in the analysed units'
+        return
+    f = fs[0]
+    ctx.analysed(f)
+    keys = ['', 'a', 'ab', 'abc', 'abd', 'b', 'ab/c', 'ab/cd', 'B', 'a\xc3\xa9']
+    bad = und = None
+    runs = 0
+    for x in keys:
+        for y in keys:
+            bufs = {}
+            r = scansim.Run(prog, f, bufs, objects=True, methods={'*': 'interp'})
+            for p_, txt in zip(f['params'], (x, y)):
+                bufs[('O', p_['id'])] = [ord(c) if ord(c) < 128 else ord(c) - 256 for c in txt] + [0]
+                r.objlen[p_['id']] = len(txt)
+                r.strobjs.add(p_['id'])
+            runs += 1
+            try:
+                got = r.run()
+            except scansim.OOB as o:
+                bad = 'compare("%s", "%s") leaves the strings: %s' % (x, y, o)
+                break
+            except (scansim.Unsupported, TypeError, KeyError, IndexError, ValueError) as u:
+                und = str(u)
+                break
+            bx, by = x.encode('latin-1'), y.encode('latin-1')
+            want = (bx > by) - (bx < by)
+            if not isinstance(got, int) or ((got > 0) - (got < 0)) != want:
+                bad = 'compare("%s", "%s") gives %s, the byte-string order gives %s: %s' % (x, y, got, want, 'the two keys are one key to the map (the second insertion overwrites the first, has() answers for the other)' if got == 0 else 'the array is not sorted the way the binary search assumes')
+                break
+        if bad or und:
+            break
+    ctx.evaluations += runs
+    role = 'compare(const String &,const String &):byte-string order, 0 only for equal keys'
+    if und and not bad:
+        ctx.info['string_order'] = 'outside the interpreted fragment: %s' % und
+    else:
+        ctx.check(bad is None, 'C02.order', f['pq'], role, fwhere(f), 'interpreted on %d ordered pairs of keys (prefixes, empty key, non-ASCII)' % runs, bad or '')
 
 
 def check_share(ctx, prog):
